@@ -178,6 +178,14 @@ def run(ctx):
         if w:
             ctx.reject(case, w, "C11:plain:%r:%s" % (s, c.key()))
             continue
+        # one more entry point / environment class per case (Template(...), sandboxed, async, autoescape,
+        # unoptimized, extensions, loader, Markup / str-subclass source, generate, module)
+        route = ctx.rng.choice(L.ROUTES)
+        got = L.safe_route(jinja2, route, c, s)
+        ctx.count("route_" + route)
+        if got != "D " + want:
+            ctx.reject(dict(case, route=route), "%s renders %r != spec_plain %r" % (route, got, want), "C11:route:%s:%r:%s" % (route, s, c.key()))
+            continue
         if rl != "D " + L.enc_str(want):
             ctx.model_mismatch("K-render render_data vs Template.render", case, rl, want, None)
             continue
@@ -197,6 +205,12 @@ def run(ctx):
         w = check_comment_raw(jinja2, c, src, kind, pre, mid, post)
         if w:
             ctx.reject(case, w, "C11:%s:%r:%s" % (kind, src, c.key()))
+            continue
+        route = ctx.rng.choice(L.ROUTES)
+        got = L.safe_route(jinja2, route, c, src)
+        if got != "D " + expected_comment_raw(c, pre, mid, post):
+            ctx.reject(dict(case, route=route), "%s: %s renders %r, expected %r" % (kind, route, got, expected_comment_raw(c, pre, mid, post)),
+                       "C11:route:%s:%r:%s" % (route, src, c.key()))
             continue
         want = expected_comment_raw(c, pre, mid, post)
         if rl != "D " + L.enc_str(want):
@@ -306,6 +320,13 @@ def replay(ctx, data):
     print("model tokens:", L.model_runs(ctx, [(c, src)])[0].canon())
     print("render      :", real_render(jinja2, c, src))
     print("overlay of a used environment:", overlay_render(jinja2, c, src))
+    if case.get("route"):
+        got = L.safe_route(jinja2, case["route"], c, src)
+        print("route", case["route"], "->", got)
+        ref = real_render(jinja2, c, src)
+        if got != ref:
+            ctx.reject(case, "%s renders %r, Environment renders %r" % (case["route"], got, ref), data.get("signature"))
+            return
     if case.get("kind", "plain") == "plain" and not has_start(c, src):
         w = check_plain(ctx, jinja2, c, src)
         print("spec_plain  :", repr(spec_plain(src, c.nl, c.keep)))
